@@ -2,4 +2,4 @@ From Coq Require Import ZArith List.
 From NV Require Import Common.Outcome Common.Conv Dispatch.Apply.
 Require Extraction.
 Require Import ExtrOcamlBasic.
-Extraction "model.ml" conv_anchor eval op_assign run run1 run2 call_or_part_apply.
+Extraction "model.ml" conv_anchor eval op_assign op_assign_store var_get var_set run run1 run2 call_or_part_apply.
